@@ -263,7 +263,10 @@ func (l *lexer) skipComment() bool {
 	for {
 		switch l.peek() {
 		case 0:
-			return true
+			if len(l.source) == l.offset {
+				return true
+			}
+			l.offset++ // a NUL byte in a comment is not the end of the query
 		case '\\':
 			switch l.offset++; l.peek() {
 			case '\\', '\n':
